@@ -7,6 +7,8 @@ from props.zmq_u import *
 # (subscription spec suffix as the user writes it, publisher topic lists per publish index (cycled))
 FORMS_A = [
     ('',        [['main']]),                       # all topics
+    (';main',   [['main'], ['other']]),            # explicit; the second publish carries no subscribed topic: only its '//' topics message arrives
+    ('',        [['main'], []]),                   # all topics; the second publish is an empty frame set
     (';main',   [['main']]),                       # explicit
     (';main>m', [['main', 'aux']]),                # remapped, publisher has one more topic
     (';*',      [['main', '_hid']]),               # wildcard incl. hidden
@@ -43,7 +45,7 @@ def harnesses(tier):
               'symbolic ids are unbounded mathematical integers >= 0']
     hs = []
     if tier == 'quick':
-        hs.append(Harness('c01.recv_stream.2src', mk_scenario([FORMS_A[:2], FORMS_B[:3] + FORMS_B[4:5]], 2, 12, 1),
+        hs.append(Harness('c01.recv_stream.2src', mk_scenario([FORMS_A[:2], FORMS_B[:3] + FORMS_B[5:6]], 2, 12, 1),
                           twin=mk_scenario([FORMS_A[:1], FORMS_B[:1]], 2, 12, 1, planted='oracle'),
                           bounds={'sources': 2, 'forms': '2 x 4', 'publishes_per_source': 2, 'poll_decisions': 12, 'not_yet_answers': 1,
                                   'ids': 'unbounded Int, strictly increasing per source'},
